@@ -122,8 +122,8 @@ def run(prop, tier, seed, replay, work, t0):
         broken.append({'what': 'proof obligation', 'detail': p})
     # optional source-derived obligations (constants extracted from /repo, checked by Lean)
     gen_info = None
-    if hasattr(mod, 'source_obligations'):
-        gen_info = mod.source_obligations(work)
+    gen_info = lib.source_obligations(prop, mod, work)
+    if gen_info is not None:
         for p in gen_info.get('problems', []):
             broken.append({'what': 'source-derived obligation', 'detail': p})
     # ---------------------------------------------------------------- B. correspondence
